@@ -7,6 +7,10 @@
 //!   "row"    in=[size,off,ts0,n]                       out=[[start,end] | null ; n entries]
 //!   "kbw"    in=[keyed,size,off,events,parts,threads]  out=["ok",[[k,start,end,v]..sorted]] | ["panic"]
 //!   "gbw"    in=[keyed,size,off,events,parts,threads]  out=["ok",[[k,start,end,[v..sorted]]..sorted]] | ["panic"]
+//!   "gmix"   in=[s1,s2,off,events,parts,threads]      out as "gbw"; event [sel,ts,v] gets the window of
+//!            size s1 if sel == 0 else s2, in ONE map followed by ONE group_by_key
+//!   "weq"    in=[s1,e1,s2,e2]   out=[a==b, hash(a)==hash(b), a.cmp(&b), a.partial_cmp(&b)] (-1/0/1, null=None)
+//!   "weqrow" in=[s1,e1,n]       out=one such entry per (s2,e2) in 0..n x 0..n, s2-major
 //! u64 values: JSON int below 2^62, decimal string otherwise. events=[[k,ts,v]..]; parts=0 means
 //! collect_seq, parts=n>0 means collect_par(Some(threads), Some(n)).
 use ibv::{Emitter, SplitMix64, Tier, drive};
@@ -48,8 +52,71 @@ fn collect<T: ironbeam::RFBound>(
     if parts == 0 { c.collect_seq() } else { c.collect_par(Some(threads), Some(parts)) }
 }
 
+fn hash_of(w: &Window) -> u64 {
+    use std::hash::{Hash, Hasher};
+    let mut h = std::collections::hash_map::DefaultHasher::new();
+    w.hash(&mut h);
+    h.finish()
+}
+fn ord_code(o: std::cmp::Ordering) -> i64 {
+    match o {
+        std::cmp::Ordering::Less => -1,
+        std::cmp::Ordering::Equal => 0,
+        std::cmp::Ordering::Greater => 1,
+    }
+}
+/// the observable behaviour of Window's PartialEq / Hash / Ord / PartialOrd on one pair
+#[allow(clippy::eq_op)]
+fn weq(a: Window, b: Window) -> Value {
+    let pc = a.partial_cmp(&b).map_or(Value::Null, |o| json!(ord_code(o)));
+    json!([a == b, hash_of(&a) == hash_of(&b), ord_code(a.cmp(&b)), pc])
+}
+
 fn run(kind: &str, input: &Value) -> Value {
     match kind {
+        "weq" => weq(
+            Window { start: du(&input[0]), end: du(&input[1]) },
+            Window { start: du(&input[2]), end: du(&input[3]) },
+        ),
+        "weqrow" => {
+            let a = Window { start: du(&input[0]), end: du(&input[1]) };
+            let n = input[2].as_u64().unwrap();
+            let mut out = Vec::new();
+            for s2 in 0..n {
+                for e2 in 0..n {
+                    out.push(weq(a, Window { start: s2, end: e2 }));
+                }
+            }
+            Value::Array(out)
+        }
+        "gmix" => {
+            let (s1, s2, off) = (du(&input[0]), du(&input[1]), du(&input[2]));
+            let evs = events(&input[3]);
+            let parts = input[4].as_u64().unwrap() as usize;
+            let threads = input[5].as_u64().unwrap() as usize;
+            let p = Pipeline::default();
+            let data: Vec<(i64, Timestamped<i64>)> =
+                evs.iter().map(|&(k, t, v)| (k, Timestamped::new(t, v))).collect();
+            let grouped = from_vec(&p, data)
+                .map(move |e: &(i64, Timestamped<i64>)| {
+                    (Window::tumble(e.1.ts, if e.0 == 0 { s1 } else { s2 }, off), e.1.value)
+                })
+                .group_by_key();
+            match collect(grouped, parts, threads) {
+                Ok(r) => {
+                    let mut r: Vec<(i64, u64, u64, Vec<i64>)> =
+                        r.into_iter().map(|(w, vs)| (0, w.start, w.end, vs)).collect();
+                    for g in &mut r {
+                        g.3.sort();
+                    }
+                    r.sort();
+                    let l: Vec<Value> =
+                        r.iter().map(|(k, s, e, vs)| json!([k, ju(*s), ju(*e), vs])).collect();
+                    json!(["ok", l])
+                }
+                Err(_) => json!(["err", "other"]),
+            }
+        }
         "tumble" => {
             let w = Window::tumble(du(&input[0]), du(&input[1]), du(&input[2]));
             json!(["ok", [ju(w.start), ju(w.end)]])
@@ -152,6 +219,32 @@ fn nt_group(evs: &[Ev], size: u64, off: u64, parts: usize) -> bool {
     starts.sort();
     starts.dedup();
     starts.len() >= 2 && parts >= 2 && evs.len() >= 2
+}
+
+/// two windows of different length with a common start (or a common end) occur
+fn nt_mixed(evs: &[Ev], s1: u64, s2: u64, off: u64) -> bool {
+    if s1 == 0 || s2 == 0 {
+        return false;
+    }
+    let mut ws: Vec<(i128, i128)> = evs
+        .iter()
+        .map(|e| {
+            let size = if e.0 == 0 { s1 } else { s2 };
+            let s = floor_start(e.1, size, off);
+            (s, s + size as i128)
+        })
+        .collect();
+    ws.sort();
+    ws.dedup();
+    ws.iter().any(|a| ws.iter().any(|b| a != b && (a.0 == b.0 || a.1 == b.1)))
+}
+fn emit_mixed(em: &mut Emitter, s1: u64, s2: u64, off: u64, evs: &[Ev], parts: usize, tag: &str) {
+    em.case(
+        "gmix",
+        json!([ju(s1), ju(s2), ju(off), jevents(evs), parts, 4]),
+        nt_mixed(evs, s1, s2, off),
+        &[tag],
+    );
 }
 
 fn emit_tumble(em: &mut Emitter, ts: u64, size: u64, off: u64, tag: &str) {
@@ -272,6 +365,58 @@ fn generate(seed: u64, tier: Tier, em: &mut Emitter) {
                 emit_group(em, "kbw", parts % 2 == 1, size, off, &evs, parts, "structured");
             }
         }
+    }
+
+    // 4b. Window's Eq / Hash / Ord: every pair of windows over (start, end) in 0..7 x 0..7
+    //     (equal starts with different ends and vice versa included), one row per first window;
+    //     then every pair over the extremes
+    let wn: u64 = if thorough { 10 } else { 7 };
+    for s1 in 0..wn {
+        for e1 in 0..wn {
+            em.case("weqrow", json!([s1, e1, wn]), true, &["weq-exhaustive"]);
+        }
+    }
+    let ext: [u64; 5] = [0, 1, 1 << 63, M - 1, M];
+    for &a in &ext {
+        for &b in &ext {
+            for &c in &ext {
+                for &d in &ext {
+                    let nt = (a == c) != (b == d) || (a == c && b == d);
+                    em.case("weq", json!([ju(a), ju(b), ju(c), ju(d)]), nt, &["weq-extremes"]);
+                }
+            }
+        }
+    }
+
+    // 4c. two window sizes meeting in one group_by_key (multi-resolution windowing):
+    //     structured: every timestamp of 0..2*max+2 once per size, so windows with a common
+    //     start / common end and different lengths always occur
+    for (s1, s2) in [(2u64, 4u64), (1, 2), (3, 6), (2, 3), (5, 10), (4, 4), (1, 7)] {
+        for off in [0u64, 1, s1, s2 + 1] {
+            let base = (off % s1).max(off % s2);
+            let span = 2 * s1.max(s2) + 2;
+            let mut evs: Vec<Ev> = Vec::new();
+            for t in 0..span {
+                evs.push((0, base + t, (t % 3) as i64));
+                evs.push((1, base + t, (t % 3) as i64 + 10));
+            }
+            for &parts in &part_counts {
+                emit_mixed(em, s1, s2, off, &evs, parts, "mixed-structured");
+            }
+        }
+    }
+    let n = if thorough { 6_000 } else { 600 };
+    for _ in 0..n {
+        let s1 = 1 + rng.below(8);
+        let s2 = if rng.chance(1, 2) { s1 * (1 + rng.below(4)) } else { 1 + rng.below(12) };
+        let off = rng.below(20);
+        let base = if rng.chance(1, 12) { 0 } else { (off % s1).max(off % s2) };
+        let nev = rng.below(14) as usize;
+        let evs: Vec<Ev> = (0..nev)
+            .map(|_| (rng.range(0, 1), base + rng.below(3 * s1.max(s2)), rng.range(0, 4)))
+            .collect();
+        let parts = *rng.pick(&[0usize, 0, 1, 2, 3, 4, 5, 8, 13]);
+        emit_mixed(em, s1, s2, off, &evs, parts, "mixed-random");
     }
 
     // 5. grouping, seeded random event sets (duplicates, unordered timestamps, key collisions,
